@@ -22,20 +22,23 @@ import (
 
 // Inst is one validator instance.
 type Inst struct {
-	Source    string `json:"source"`     // crl_url | crl_file | cdp
-	Disk      bool   `json:"disk"`
-	Sig       string `json:"sig"`        // verify | verify_log | none
-	Bg        bool   `json:"background"`
-	PhasePct  int    `json:"phase_pct"`  // start offset in percent of T
-	LatencyPct int   `json:"latency_pct"` // origin latency per request in percent of T (refreshes take time)
-	FailK     int    `json:"fail_k"`     // the first FailK fetches after publishing the new list fail
-	FailKind  string `json:"fail_kind"`  // http500 | garbage | badsig | truncated
+	Source     string `json:"source"` // crl_url | crl_file | cdp
+	Disk       bool   `json:"disk"`
+	Sig        string `json:"sig"` // verify | verify_log | none
+	Bg         bool   `json:"background"`
+	PhasePct   int    `json:"phase_pct"`   // start offset in percent of T
+	LatencyPct int    `json:"latency_pct"` // origin latency per request in percent of T (refreshes take time)
+	FailK      int    `json:"fail_k"`      // the first FailK fetches after publishing the new list fail
+	FailKind   string `json:"fail_kind"`   // http500 | garbage | badsig | truncated
 	// Decoy: the instance also knows a second CRL (crl_url of another CA) that starts failing for good right after
 	// Provision: none | garbage | http500 | badsig
 	Decoy string `json:"decoy"`
 	// Restart (configured sources on disk): after the run the instance is cleaned up, a newer list is published and the
 	// instance is provisioned again on the same work_dir
 	Restart bool `json:"restart"`
+	// Discover (fetch_background): while the instance is observed, certificates naming distribution points it has
+	// not seen before keep arriving, one every 3/8 T
+	Discover bool `json:"discover,omitempty"`
 }
 
 // Case is 1..4 instances running together.
@@ -60,6 +63,7 @@ func genCase(t *rapid.T) Case {
 			FailKind:   rapid.SampledFrom([]string{"http500", "garbage", "badsig", "truncated"}).Draw(t, l+"fk"),
 			Decoy:      rapid.SampledFrom([]string{"none", "none", "garbage", "http500", "badsig"}).Draw(t, l+"decoy"),
 			Restart:    rapid.IntRange(0, 2).Draw(t, l+"restart") == 0,
+			Discover:   rapid.IntRange(0, 2).Draw(t, l+"discover") == 0,
 		})
 	}
 	return c
@@ -68,19 +72,20 @@ func genCase(t *rapid.T) Case {
 var seq atomic.Int64
 
 type running struct {
-	inst      Inst
-	pki, sib  *world.SimplePKI
-	origin    *world.Origin
-	checker   *crl.CRLRevocationChecker
-	file      string
-	mu        sync.Mutex
-	published bool
-	served    int // fetches since publishing
-	hitTimes  []time.Time
-	v1, v2    []byte
-	bad       []byte
-	probeOld  [][]*x509.Certificate
-	probeNew  [][]*x509.Certificate
+	inst       Inst
+	pki, sib   *world.SimplePKI
+	origin     *world.Origin
+	checker    *crl.CRLRevocationChecker
+	discovered int
+	file       string
+	mu         sync.Mutex
+	published  bool
+	served     int // fetches since publishing
+	hitTimes   []time.Time
+	v1, v2     []byte
+	bad        []byte
+	probeOld   [][]*x509.Certificate
+	probeNew   [][]*x509.Certificate
 	rejectedAt time.Time
 	breakDecoy func()
 	opts       world.CRLOpts
@@ -235,7 +240,10 @@ func runCase(c Case, x *ev.Ctx) error {
 					break
 				}
 				if time.Now().After(deadline) {
-					r.mu.Lock(); nh := len(r.hitTimes); r.mu.Unlock(); return fmt.Errorf("instance %d: CDP list not in force %v after the first handshake (background=%v; origin saw %d fetches of it; last verdict %v)", i, W, in.Bg, nh, world.Ask(ch, r.probeOld))
+					r.mu.Lock()
+					nh := len(r.hitTimes)
+					r.mu.Unlock()
+					return fmt.Errorf("instance %d: CDP list not in force %v after the first handshake (background=%v; origin saw %d fetches of it; last verdict %v)", i, W, in.Bg, nh, world.Ask(ch, r.probeOld))
 				}
 				time.Sleep(T / 10)
 			}
@@ -261,10 +269,20 @@ func runCase(c Case, x *ev.Ctx) error {
 	}
 	deadline := tPub.Add(time.Duration(maxK+1) * W)
 	pending := len(rs)
-	for pending > 0 && time.Now().Before(deadline) {
-		for _, r := range rs {
+	for round := 0; pending > 0 && time.Now().Before(deadline); round++ {
+		for i, r := range rs {
 			if !r.rejectedAt.IsZero() {
 				continue
+			}
+			if r.inst.Discover && r.inst.Bg && round%3 == 0 {
+				// a client of the same CA naming a distribution point this instance has never seen (its list is fine
+				// and does not list the client)
+				path := fmt.Sprintf("/discover-%d-%d.crl", i, round)
+				r.origin.Serve(path, r.pki.CRL(1, "0a"))
+				if v := world.Ask(r.checker, r.pki.ChainFor(r.pki.Leaf("0c", []string{r.origin.URL(path)}, nil))); v.Kind != "ok" {
+					return fmt.Errorf("handshake naming a new distribution point failed: %v", v)
+				}
+				r.discovered++
 			}
 			v := world.Ask(r.checker, r.probeNew)
 			switch v.Kind {
@@ -302,6 +320,9 @@ func runCase(c Case, x *ev.Ctx) error {
 		if d := r.rejectedAt.Sub(tPub); d > bound && !stalled {
 			return fmt.Errorf("instance %d (%+v): rejection came %v after publishing, bound %v", i, r.inst, d, bound)
 		}
+		if r.discovered > 0 {
+			x.Class("new-distribution-points-discovered-during-observation")
+		}
 		x.Classf("source=%s", r.inst.Source)
 		x.Classf("delay-in-T=%d", int(r.rejectedAt.Sub(tPub)/T))
 	}
@@ -338,10 +359,10 @@ func runCase(c Case, x *ev.Ctx) error {
 }
 
 var spec = ev.Spec[Case]{
-	ID:  "C15",
-	Gen: genCase,
-	Run: runCase,
-	Rule: "rapid draws 1..4 checker instances running together in one process (distinct work_dirs), update_interval T in 200..400 ms, per instance: source in {crl_urls, crl_files, CDP}, storage, signature mode, fetch mode, start phase (0..90 % of T), origin latency (0..80 % of T, so refreshes of different instances overlap) and a failure prefix: after the new list is published the first k in 0..2 fetches fail (HTTP 500, garbage, truncated, wrong signature) before the acceptable list is served; optionally a second configured CRL of another CA that fails for good right after Provision (garbage / HTTP 500 / wrong signature), and for configured sources on disk a final restart on the same work_dir after a still newer list was published. Oracles: after that restart the newest list is in force when Provision returns; a serial listed in a configured CRL is rejected immediately after Provision returns; after publishing, every instance rejects the newly revoked certificate within (k+1) x 12 T (each successive fetch within 12 T), polled with handshakes every T/8; the assertion is only evaluated if a control ticker of the harness with period T kept firing during the window (a stalled machine yields 'inconclusive', never a violation). Every case is non-trivial; distinct by the full configuration.",
+	ID:          "C15",
+	Gen:         genCase,
+	Run:         runCase,
+	Rule:        "rapid draws 1..4 checker instances running together in one process (distinct work_dirs), update_interval T in 200..400 ms, per instance: source in {crl_urls, crl_files, CDP}, storage, signature mode, fetch mode, start phase (0..90 % of T), optionally (fetch_background) a stream of certificates naming never-seen distribution points every 3/8 T during the observation, origin latency (0..80 % of T, so refreshes of different instances overlap) and a failure prefix: after the new list is published the first k in 0..2 fetches fail (HTTP 500, garbage, truncated, wrong signature) before the acceptable list is served; optionally a second configured CRL of another CA that fails for good right after Provision (garbage / HTTP 500 / wrong signature), and for configured sources on disk a final restart on the same work_dir after a still newer list was published. Oracles: after that restart the newest list is in force when Provision returns; a serial listed in a configured CRL is rejected immediately after Provision returns; after publishing, every instance rejects the newly revoked certificate within (k+1) x 12 T (each successive fetch within 12 T), polled with handshakes every T/8; the assertion is only evaluated if a control ticker of the harness with period T kept firing during the window (a stalled machine yields 'inconclusive', never a violation). Every case is non-trivial; distinct by the full configuration.",
 	Assumptions: []string{"bounded liveness for intervals of a few hundred milliseconds, not the 30-minute production interval", "12 T per fetch is a generous bound: a refresh that becomes several times slower but stays bounded is not detected"},
 }
 
